@@ -201,6 +201,9 @@ class SetAlg:
             return f_or(*[self.eq_atom(e, x) for x in t[1]])
         if h == "concat":
             return f_or(self.member(e, t[1]), self.member(e, t[2]))
+        if h in ("slice", "slice3"):
+            # a slice selects some of the sequence's elements: membership implies membership in the sequence
+            return f_and(self.member(e, t[1]), ("atom", ("in", e, self.canon_opaque(t))))
         if h == "ite":
             c = self.cond(t[1])
             return f_or(f_and(c, self.member(e, t[2])), f_and(f_not(c), self.member(e, t[3])))
